@@ -69,11 +69,11 @@ def fsum (xs : List F32) : F32 := xs.foldl add (ofBits Gen.sumInitBits)
 /-- `poll(x)`; `none` = panic (`capacity - num_to_discard_at_end` underflow) -/
 def poll (r : Ribbon) (x : F32) : Option Ribbon :=
   if lt x r.boundary then
-    let received := Nat.min (r.received + 1) r.ignore
+    let received := min (r.received + 1) r.ignore
     let r := { r with received := received }
     if r.ignore ≤ r.received then
       let buff := r.buff.write x
-      let written := Nat.min (r.written + 1) buff.capacity
+      let written := min (r.written + 1) buff.capacity
       let r := { r with buff := buff, written := written }
       if r.written == r.buff.capacity then
         if r.buff.capacity < r.discard then none
